@@ -6,14 +6,18 @@ META = {
     "technique": ("Lean 4 theorems over an executable model of Script::Merge / Projection::Apply (rules abstract), of the prism as a "
                   "sorted key table and of the DictCompiler::BuildPrism glue + differential run of the real Projection (boost::regex), "
                   "Prism::Build/Save/Load/searches and DictCompiler::Compile against the model under ASan/UBSan, with the recorded "
-                  "regex outcomes as the abstract rules"),
+                  "regex outcomes as the abstract rules — except `erase`, whose whole-string regex_match the model computes itself on "
+                  "a fragment of the regex syntax; the recorded outcomes of all six kinds are also checked against an independent "
+                  "reference matcher (match for erase, search for the transformations)"),
     "level": "proof",
     "level_text": ("Theorems in RimeModel/Props/C09.lean, for EVERY syllabary, EVERY list of rules (a rule = one of the six kinds "
                    "+ an arbitrary function spelling -> not-applied | applied(result) | threw, so all regular expressions) and EVERY "
                    "query string / limit: script_values_in_syllabary (every spelling of Projection.apply's result has a non-empty list "
                    "of syllables, all in the syllabary, none twice, keys strictly sorted, no tips); nondeleting_monotone(_rules) (derive/"
                    "fuzz/abbrev keep every spelling and every syllable under it); own_name_round / own_name_law (a syllable no longer "
-                   "spelled by itself => a deleting rule xlit/xform/erase applied to it); type_is_min / cred_is_max / merge_frame (after "
+                   "spelled by itself => a deleting rule xlit/xform/erase applied to it); erase_own_name_round / erase_literal_exact (for erase "
+                   "with a pattern of the modelled regex fragment the pattern matches the lost syllable AS A WHOLE; a literal pattern erases "
+                   "that spelling and no spelling merely containing it); type_is_min / cred_is_max / merge_frame (after "
                    "Script.merge the properties of a syllable are the minimum type / maximum credibility over the old element and all "
                    "merged candidates, attained; nothing else changes); load_build_id, prism_roundtrip, algebra_prism_roundtrip "
                    "(load(save(build)) has exactly the spellings as keys and gives back exactly the syllables with the same type and "
@@ -26,7 +30,10 @@ META = {
                    "script, the whole Projection::Apply, Script::Merge with arbitrary properties, Build+Save+Load, the real "
                    "DictCompiler::Compile on generated dict/schema files, and GetValue/HasKey/CommonPrefixSearch/ExpandSearch/"
                    "QuerySpelling on all keys, all proper prefixes and random strings); boost::regex and the xlit code-point map (their "
-                   "outcomes are recorded per rule and spelling and handed to the model as the abstract rule); darts-clone (the model "
+                   "outcomes are recorded per rule and spelling and handed to the model as the abstract rule; for erase patterns inside the "
+                   "fragment of RimeModel/C09/Regex.lean — literals, ., [..], groups, |, one of * + ?, ^, $ — the model computes the outcome "
+                   "itself and the recorded one must agree; every recorded outcome with an ASCII pattern of that fragment is also compared "
+                   "with Python's re: fullmatch for erase, search => applied for the transformations); darts-clone (the model "
                    "keeps the sorted key table it encodes); the mapped-file byte layout (abstracted to the fields Load reads; Build's "
                    "size estimate is not proved sufficient); double/float credibility arithmetic (mapped to the penalty count by exact "
                    "comparison with the iterated sum of the penalty constant learned from the real Fuzzing; a value outside that chain "
@@ -41,7 +48,7 @@ SRC_FILES = ["src/rime/dict/dict_compiler.cc", "src/rime/algo/algebra.cc", "src/
              "src/rime/dict/mapped_file.h"]
 NONDELETING = ("derive", "fuzz", "abbrev")
 DELETING = ("xlit", "xform", "erase")
-GENERATOR_VERSION = 2
+GENERATOR_VERSION = 3
 
 
 def hx(b):
@@ -119,7 +126,9 @@ def gen_formula(rng, letters, syls, outside, allow_xlit):
     sep = b"/" if rng.random() < 0.9 else rng.choice([b"|", b":", b" ", b"#"])
     r = rng.random()
     if r < 0.04:   # malformed
-        L = bytes([rng.choice(letters)])
+        # ASCII only: `xlit` decodes its arguments with utf8::unchecked, which on a truncated multi-byte sequence (a lone byte
+        # >= 0x80 before the NUL) walks past the end of the string — behaviour that depends on stale memory, outside the property
+        L = bytes([rng.choice([x for x in letters if x < 0x80] or [0x61])])
         return rng.choice([b"xform/" + L + b"/", b"bogus/" + L + b"/" + L + b"/", b"xform/(" + L + b"/" + L + b"/", b"xform//" + L + b"/",
                            b"derive", b"xlit/" + L + L + b"/" + L + b"/", b"erase//", b"erase", b"fuzz/[" + L + b"/" + L + b"/", b"Xform/a/b/"])
     kinds = ["xform", "derive", "fuzz", "abbrev", "erase"] + (["xlit"] if allow_xlit else [])
@@ -130,13 +139,24 @@ def gen_formula(rng, letters, syls, outside, allow_xlit):
         dst = [rng.choice(letters + [outside[0]]) for _ in range(n)]
         return sep.join([b"xlit", bytes(src), bytes(dst), b""])
     if kind == "erase":
+        # Erasion matches the WHOLE spelling (regex_match): every anchoring of every shape is generated, so that patterns
+        # which only occur INSIDE a spelling (where a search would hit) are as common as patterns that span it
         r2 = rng.random()
+        anchor = rng.choice([(b"", b""), (b"^", b""), (b"", b"$"), (b"^", b"$")])
         if r2 < 0.35 and syls:
-            pat = rng.choice(syls)
+            s = rng.choice(syls)
+            if rng.random() < 0.5:
+                pat = s                                   # a whole syllable
+            else:
+                i = rng.randrange(len(s))
+                pat = s[i:rng.randrange(i + 1, len(s) + 1)]   # a piece of one
+            pat = anchor[0] + pat + anchor[1]
         elif r2 < 0.5:
-            pat = rng.choice([b".*", b".+", b"^.*$", b".", b".."])
+            pat = rng.choice([b".*", b".+", b"^.*$", b".", b"..", b"^.", b".$", b"^..", b"..$", b"^.+", b".+$"])
         elif r2 < 0.75:
-            pat = b"^" + bytes([rng.choice(letters)]) + b".*$"
+            x = bytes([rng.choice(letters)])
+            pat = rng.choice([b"^" + x + b".*$", b"^.*" + x + b"$", b"^" + x, x + b"$", x, x + b".*", b".*" + x, b"^" + x + b".*", b".*" + x + b"$",
+                              b"^.*" + x + b".*$", x + b"+", b"^" + x + b"+", b"[" + x + bytes([rng.choice(letters)]) + b"]+" + anchor[1]])
         else:
             pat = gen_pattern(rng, letters, syls, outside)[0]
         if sep in pat:
@@ -159,6 +179,11 @@ def gen_case(rng, cid):
     if high:
         for _ in range(rng.choice([1, 2])):
             letters[rng.randrange(n)] = rng.choice([0x80, 0xe9, 0xfc, 0xff, 0xc3, 0xa4])
+        letters = list(dict.fromkeys(letters))
+    elif rng.random() < 0.25:
+        # ASCII outside a-z: tone digits, punctuation keys, upper case (none of them special in a regex)
+        for _ in range(rng.choice([1, 1, 2])):
+            letters[rng.randrange(n)] = rng.choice(list(b"12345;,_ABZ"))
         letters = list(dict.fromkeys(letters))
     outside = bytes([rng.choice([x for x in pool if x not in letters])])
     nsyl = rng.choice([1, 2, 3, 5, 8, 13, 21, 30, 40, rng.randint(1, 40)])
@@ -200,6 +225,34 @@ def gen_case(rng, cid):
         ops.append("reload " + hx(fmt))
         ops += ["x - 0", "x - 3", "sp 0", "sp 1", "q " + hx(rng.choice(syls))]
     return ops
+
+
+def gen_anchor_grid(rng, cid0):
+    """directed family: one small syllabary whose syllables share pieces, and for each of erase / xform / derive one case per
+    anchoring {none, ^ only, $ only, both} x {a whole syllable, a proper piece of one}: the whole-string semantics of erase
+    (regex_match) and the anywhere semantics of the transformations (regex_replace) give different tables on these"""
+    letters = rng.sample(list(b"abcdefghijklmnopqrstuvwxyz") + list(b"12;A"), rng.choice([2, 3, 3]))
+    L = [bytes([x]) for x in letters]
+    syls = sorted({b"".join(rng.choice(L) for _ in range(rng.randint(1, 3))) for _ in range(rng.choice([6, 9, 12]))})
+    long_ = [s for s in syls if len(s) >= 2] or syls
+    cases = []
+    for kind in (b"erase", b"xform", b"derive"):
+        for pre, suf in ((b"", b""), (b"^", b""), (b"", b"$"), (b"^", b"$")):
+            for whole in (True, False):
+                s = rng.choice(syls if whole else long_)
+                if whole:
+                    lit = s
+                else:
+                    i = rng.randrange(len(s))
+                    lit = s[i:i + max(1, rng.randrange(1, len(s)))]
+                pat = pre + lit + suf
+                f = b"erase/" + pat + b"/" if kind == b"erase" else kind + b"/" + pat + b"/" + rng.choice(L + [b""]) + b"/"
+                ops = ["case %d" % (cid0 + len(cases)), "syl " + " ".join(hx(x) for x in syls)]
+                if rng.random() < 0.3:      # spellings that are not syllable names, for the rule to meet
+                    ops.append("rule " + hx(b"derive/^(.)(.*)$/$2$1/"))
+                ops += ["rule " + hx(f), "apply", "build", "queries %d 3 8" % rng.randrange(1 << 30)]
+                cases.append(ops)
+    return cases
 
 
 # ----------------------------------------------------------------------------- running both sides
@@ -402,6 +455,8 @@ def monitor(prim):
             old = dict(step)
             newd = dict(new)
             args = parse_formula(unhx(a[1]))
+            if kind == "erase" and args and len(args) > 1 and safe_regex(args[1]):
+                stats["erase_modelled"] = stats.get("erase_modelled", 0) + 1
             # the recorded outcome of Calculation::Apply against the reference reading of "matches"
             for k, o in rows.items():
                 if o not in ("0", "1"):
@@ -663,14 +718,18 @@ def run(c):
         for g in case_groups(lines):
             cases.append(("corpus:" + os.path.basename(f), g))
     ncorpus = len(cases)
-    for i in range(150 if quick else 8900):
+    ngen = 150 if quick else 8900
+    for i in range(ngen):
         cases.append(("gen", gen_case(rng, i)))
+    for _ in range(3 if quick else 40):
+        for g in gen_anchor_grid(rng, ngen + len(cases)):
+            cases.append(("grid", g))
     # K + O in batches
     o_fail, mismatches, san = {}, [], []
     foreign_crashes = 0
     nontrivial, seen_hash = set(), set()
     totals = {"rounds": 0, "applied_rounds": 0, "merged_entries": 0, "queries": 0, "compiles": 0, "compiles_refused_empty_table": 0, "table_build_failures": 0,
-              "ref_outcomes": 0, "ref_disagree": 0, "erase_contains_not_whole": 0}
+              "ref_outcomes": 0, "ref_disagree": 0, "erase_contains_not_whole": 0, "erase_modelled": 0}
     ref_bad = None
     samples = []
     B = 50 if quick else 200
@@ -772,7 +831,9 @@ def run(c):
         "evaluations": R.evaluations, "distinct_nontrivial": len(nontrivial),
         "rule": ("generator v%d: alphabet of 3-6 letters (15%%: with bytes >= 0x80), syllabary of 1-40 syllables of length <= 2..5, "
                  "0-6 formulas of the six kinds with generated regexes (classes, anchors, alternations, back-references, match-nothing, "
-                 "match-everything, erase-to-empty, malformed), or 1-8 direct Script::Merge calls with arbitrary type/penalty/tips; then "
+                 "match-everything, erase-to-empty, malformed; erase patterns in every anchoring: none, ^ only, $ only, both), or 1-8 direct Script::Merge calls with arbitrary type/penalty/tips; "
+                 "plus a directed grid {erase, xform, derive} x {no anchor, ^, $, ^$} x {whole syllable, piece of one} on syllabaries with shared pieces; 25%% of the ASCII "
+                 "alphabets contain digits / punctuation / upper case; then "
                  "Build+Save+Load (30%% of the ASCII cases: the real DictCompiler::Compile on generated dict/schema files instead) and GetValue/HasKey/CommonPrefixSearch/ExpandSearch (7 limits)/QuerySpelling on keys, all proper "
                  "prefixes, random strings. evaluations = primitive operations compared implementation vs model; a case is non-trivial "
                  "when the projection modified the script and some spelling ended with >= 2 syllables or a non-normal type; distinct by "
@@ -784,6 +845,7 @@ def run(c):
         "table_build_failures_not_c09": totals["table_build_failures"] + foreign_crashes,
         "rule_outcomes_checked_against_reference_regex": totals["ref_outcomes"], "reference_regex_disagreements": totals["ref_disagree"],
         "erase_outcomes_where_match_differs_from_search": totals["erase_contains_not_whole"],
+        "erase_rounds_computed_by_the_model_regex": totals["erase_modelled"],
         "correspondence_mismatches": len(mismatches), "impl_monitor_failures": len(o_fail), "sanitizer_aborts": len(san),
         "source_hash": vlib.source_hash(SRC_FILES), "proof_failures": audit["failures"],
     })
